@@ -68,7 +68,7 @@ def generate(ctx):
         if kind == "RSS_ESTIMATE":
             # the estimate itself: the ACS image divided by its root-sum-of-squares over coils
             acs = ("call", ("attr", me, "estimate_acs_image"), (S("sample"),), ())
-            rss = ("call", ("attr", TMOD, "root_sum_of_squares"), (acs,), (("dim", coil),))
+            rss = ("call", ("attr", TMOD, "root_sum_of_squares"), (acs, coil), ())
             if x != ("call", ("attr", TMOD, "safe_divide"), (acs, _meth(_meth(rss, "unsqueeze", coil), "unsqueeze", cplx)), ()):
                 raise Untranslatable("EstimateSensitivityMapModule.forward: RSS estimate is not acs / rss(acs): %s" % X.show(x)[:140], None, path)
         elif kind == "UNIT":
